@@ -200,7 +200,7 @@ def gen_MbootConsts():
     # ---- status codes used by the state machine, property tag, default packet size
     st = dict(enum_members(err, "StatusCode"))
     for n in ("SUCCESS", "FAIL", "NO_RESPONSE", "SENDING_OPERATION_CONDITION_ERROR", "UNKNOWN_PROPERTY", "READ_ONLY_PROPERTY",
-              "MEMORY_RANGE_INVALID", "UNKNOWN_COMMAND", "ABORT_DATA_PHASE", "INVALID_ARGUMENT"):
+              "MEMORY_RANGE_INVALID", "UNKNOWN_COMMAND", "ABORT_DATA_PHASE", "INVALID_ARGUMENT", "OTP_VERIFY_FAIL"):
         d("st" + camel(n)[0].upper() + camel(n)[1:], st.get(n, 999999), f"StatusCode.{n}")
     pt = dict(enum_members(prop, "PropertyTag"))
     d("propMaxPacketSize", pt.get("MAX_PACKET_SIZE", 999999), "PropertyTag.MAX_PACKET_SIZE")
@@ -288,7 +288,10 @@ def gen_MbootConsts():
     ctd, cfd = dict(ct), dict(cf)
     pk = []
     for fn in ("flash_erase_all", "flash_erase_region", "read_memory", "write_memory", "fill_memory", "get_property", "set_property",
-               "receive_sb_file", "execute", "call", "flash_erase_all_unsecure", "configure_memory", "reliable_update"):
+               "receive_sb_file", "execute", "call", "flash_erase_all_unsecure", "configure_memory", "reliable_update",
+               "reset", "flash_read_once", "flash_program_once", "efuse_read_once", "efuse_program_once", "flash_read_resource",
+               "kp_enroll", "kp_set_intrinsic_key", "kp_write_nonvolatile", "kp_read_nonvolatile", "kp_set_user_key",
+               "kp_write_key_store", "kp_read_key_store"):
         f = _fun(mb, fn) if mb is not None else None
         if f is None:
             continue
@@ -298,6 +301,19 @@ def gen_MbootConsts():
             t, fl = _enum_attr(n.args[0]), _enum_attr(n.args[1])
             if t and fl:
                 pk.append((fn, ctd.get(t[1], 999999), cfd.get(fl[1], 999999), len(n.args) - 2))
+    kp = enum_members(cmd, "KeyProvOperation")
+    L.append(f"def keyProvOperations : List (String × Nat) := [{', '.join(f'(\"{n}\", {v})' for n, v in kp)}]")
+    # first argument of the key-provisioning packets: KeyProvOperation member
+    kpd = dict(kp)
+    kpops = []
+    for fn in ("kp_enroll", "kp_set_intrinsic_key", "kp_write_nonvolatile", "kp_read_nonvolatile", "kp_set_user_key", "kp_write_key_store", "kp_read_key_store"):
+        f = _fun(mb, fn) if mb is not None else None
+        for n in ast.walk(f) if f is not None else []:
+            if isinstance(n, ast.Call) and isinstance(n.func, ast.Name) and n.func.id == "CmdPacket" and len(n.args) >= 3:
+                ea = _enum_attr(n.args[2])
+                if ea and ea[0] == "KeyProvOperation":
+                    kpops.append((fn, kpd.get(ea[1], 999999)))
+    L.append(f"def kpApiOperations : List (String × Nat) := [{', '.join(f'(\"{a}\", {b})' for a, b in kpops)}]")
     L.append(f"def apiPackets : List (String × Nat × Nat × Nat) := [{', '.join(f'(\"{a}\", {b}, {c}, {e})' for a, b, c, e in pk)}]")
     meta["apiPackets"] = [list(x) for x in pk]
     L += ["", "end SpsdkVerif.Generated.MbootConsts"]
@@ -326,6 +342,28 @@ def gen_SdpConsts():
         if isinstance(n, ast.Assign) and isinstance(n.targets[0], ast.Name) and n.targets[0].id == "max_length" and isinstance(n.value, ast.Constant):
             ml = n.value.value
     L.append(f"def readBlock : Nat := {ml if isinstance(ml, int) else 999999}  -- max_length in SDP._read_data")
+    # HID report table of the bulk protocol: name -> (id, size)
+    bulkm = parse("spsdk/sdp/protocol/bulk_protocol.py")
+    hr = []
+    for n in ast.walk(bulkm):
+        if isinstance(n, ast.Assign) and isinstance(n.targets[0], ast.Name) and n.targets[0].id == "HID_REPORT" and isinstance(n.value, ast.Dict):
+            for k, v in zip(n.value.keys, n.value.values):
+                try:
+                    t = ast.literal_eval(v)
+                    hr.append((k.value, int(t[0]), int(t[1])))
+                except (ValueError, SyntaxError, TypeError, IndexError):
+                    pass
+    L.append(f"def hidReports : List (String × Nat × Nat) := [{', '.join(f'(\"{a}\", {b}, {c})' for a, b, c in hr)}]")
+    # SDPS
+    sdpsm = parse("spsdk/sdp/sdps.py")
+    sig = enum_members(sdpsm, "CommandSignature")
+    L.append(f"def sdpsSignatures : List (String × Nat) := [{', '.join(f'(\"{n}\", {v})' for n, v in sig)}]")
+    stag = enum_members(sdpsm, "CommandTag")
+    L.append(f"def sdpsCommandTags : List (String × Nat) := [{', '.join(f'(\"{n}\", {v})' for n, v in stag)}]")
+    sflag = enum_members(sdpsm, "CommandFlag")
+    L.append(f"def sdpsCommandFlags : List (String × Nat) := [{', '.join(f'(\"{n}\", {v})' for n, v in sflag)}]")
+    sfmt = class_consts(sdpsm, "CmdPacket").get("FORMAT", "?")
+    L.append(f"def sdpsCmdFormat : String := \"{sfmt}\"")
     L += ["", "end SpsdkVerif.Generated.SdpConsts"]
     emit("SdpConsts", "\n".join(L) + "\n", {"sources": ["spsdk/sdp/commands.py", "spsdk/sdp/error_codes.py", "spsdk/sdp/sdp.py"], "format": fmt})
 
